@@ -1,2 +1,76 @@
-From GB Require Import Bucket BucketOpen Gc.
-Example C02_placeholder : True. Proof. exact I. Qed.
+(* C02 -- clean restart preserves everything; index files are rebuildable caches.
+   Property theorems only; proofs live in proofs/Upd.v, Restart1.v .. Restart5.v. *)
+From Coq Require Import NArith ZArith List Bool String.
+From GB Require Import Consts Words Hash Compress Bucket BucketOpen CheckL2 RefMap Refine Restart2 Restart4 Restart5.
+Import ListNotations.
+Open Scope N_scope.
+
+(* What a restart may do to the reference map (Restart4.view): every LIVE key keeps its entry -- value,
+   flags and version; a deleted key stays deleted (its tombstone is either remembered unchanged or
+   forgotten); an absent key stays absent. *)
+
+(* (1) ONE RESTART, from ANY state that satisfies the invariant of the refinement (every state reachable by
+   client operations and earlier restarts does: (2)), for EVERY subset rm of index files removed between
+   shutdown and start-up (tree dump, any set of per-chunk per-split hint files, merged hint): start-up is
+   not refused, the invariant holds again, and the new reference map is a view of the old one.
+   The model functions are bucket.close / bucket.open as replayed by the correspondence check. *)
+Theorem C02_restart : forall (cf : cfg) (hf : bytes -> N) (K : list bytes),
+  (forall k1 k2, In k1 K -> In k2 K -> hf k1 = hf k2 -> k1 = k2) -> 0 < c_splitcap cf ->
+  forall b m rm, RInv2 hf K b m ->
+  exists b' m', restart cf hf b rm = Opened b' /\ RInv2 hf K b' m' /\ view K m m'.
+Proof. exact restart_x. Qed.
+Print Assumptions C02_restart.
+
+(* (2) WHOLE HISTORIES: for ALL configurations with check_vhash off (see note), ALL collision-free key sets
+   and ALL histories of any length mixing client operations (set / delete / incr / get / meta-get / flush /
+   hint dump) with clean restarts at ANY positions, each with its own arbitrary subset of index files
+   removed: every reply equals the reference map's reply, where the map is replaced at each restart by some
+   view of itself (live entries identical). *)
+Theorem C02_history : forall (lc : l2cfg) (K : list bytes),
+  (forall k1 k2, In k1 K -> In k2 K -> forced_hash (l_forced lc) k1 = forced_hash (l_forced lc) k2 -> k1 = k2) ->
+  0 < c_splitcap (l_cfg lc) -> c_checkvhash (l_cfg lc) = false ->
+  forall ops, Forall (op_valid K) ops -> spec_ok lc K [] ops (model_run lc bucket0 ops).
+Proof.
+  intros lc K Hinj Hcap Hcv ops Hv.
+  exact (restart_history lc K Hinj Hcap Hcv ops bucket0 [] (rinv2_init lc K Hcap Hcv) Hv).
+Qed.
+Print Assumptions C02_history.
+
+(* the view really pins live keys down: a key that is live before a restart reads the same afterwards *)
+Theorem C02_view_live : forall K m m' k e, view K m m' -> In k K -> s_get m k = Some e -> live e = true -> s_get m' k = Some e.
+Proof. intros K m m' k e Hv Hk He Hl. specialize (Hv k Hk). rewrite He, Hl in Hv. exact Hv. Qed.
+Print Assumptions C02_view_live.
+
+Theorem C02_view_dead : forall K m m' k, view K m m' -> In k K ->
+  snd (spec_step false m (SGet k)) = PMiss -> snd (spec_step false m' (SGet k)) = PMiss.
+Proof.
+  intros K m m' k Hv Hk. specialize (Hv k Hk). cbn [spec_step].
+  destruct (s_get m k) as [e|] eqn:E.
+  - destruct (live e) eqn:El; cbn [snd]; [discriminate|]. intros _. destruct Hv as [-> | ->]; [reflexivity|now rewrite El].
+  - intros _. now rewrite Hv.
+Qed.
+Print Assumptions C02_view_dead.
+
+(* non-vacuity: rotation (512-byte files), overwrite, delete, restart without tree and without two hint
+   files, writes after the restart, second restart keeping everything *)
+Definition ex2_lc : l2cfg := mkL2 (mkCfg 512 4096 2 false 3 false 1) [] 0.
+Definition ex2_K : list bytes := [unhex "6b31"; unhex "6b32"; unhex "6b33"].
+Definition ex2_z : zinfo := mkZ true 0 0.
+Definition ex2_ops : list l2op :=
+  [OSet "6b31" "6161" 0 0 1 ex2_z; OSet "6b32" "6262" 7 0 2 ex2_z; OSet "6b31" "6363" 0 0 3 ex2_z; OSet "6b33" "64" 0 0 4 ex2_z;
+   ODel "6b32"; ORestart (mkRm true [(0, 0); (1, 0)]%nat true); OGet "6b31"; OGet "6b32"; OMeta "6b33";
+   OSet "6b32" "6565" 0 0 5 ex2_z; ORestart rm_none; OGet "6b32"; OMeta "6b31"].
+
+Example C02_nonvacuous :
+  (forall k1 k2, In k1 ex2_K -> In k2 ex2_K -> forced_hash [] k1 = forced_hash [] k2 -> k1 = k2) /\
+  Forall (op_valid ex2_K) ex2_ops /\
+  model_run ex2_lc bucket0 ex2_ops =
+    [PStored; PStored; PStored; PStored; PDeleted; POk; PHit (unhex "6363") 0; PMiss; PMeta 1 (vhash (unhex "64")) 0 1;
+     PStored; POk; PHit (unhex "6565") 0; PMeta 2 (vhash (unhex "6363")) 0 2].
+Proof.
+  split; [|split].
+  - intros k1 k2 H1 H2 He. unfold ex2_K in *. cbn [In] in H1, H2.
+    destruct H1 as [<-|[<-|[<-|[]]]]; destruct H2 as [<-|[<-|[<-|[]]]]; try reflexivity; exfalso; apply N.eqb_eq in He; vm_compute in He; discriminate He.
+  - unfold ex2_ops. repeat constructor; try (eexists; split; [reflexivity|]; cbn -[N.land]; repeat split; try reflexivity; try (cbn; tauto); try (intro H; discriminate H)); exact I.
+  - vm_compute. reflexivity.
+Qed.
